@@ -1,6 +1,7 @@
 package codec
 
 import (
+	"bufio"
 	"bytes"
 	"errors"
 	"fmt"
@@ -77,6 +78,7 @@ type rdResult struct {
 }
 
 type c05env struct {
+	bufSize int // > 0: size of a caller-supplied bufio.Reader
 	rep     *vh.Report
 	drw     *dialect.ReadWriter
 	layouts map[uint32]*msgInfo
@@ -105,6 +107,10 @@ func (e *c05env) run(stream []byte, sr *scriptReader, tag string) (res []rdResul
 		}
 	}()
 	rd := &frame.Reader{ByteReader: sr, DialectRW: e.drw, InKey: e.key}
+	if e.bufSize > 0 {
+		// the caller supplies its own (small) buffered reader through the public BufByteReader field
+		rd = &frame.Reader{BufByteReader: bufio.NewReaderSize(sr, e.bufSize), DialectRW: e.drw, InKey: e.key}
+	}
 	if err := rd.Initialize(); err != nil {
 		e.rep.HarnessError("reader init: " + err.Error())
 		return nil, false
@@ -564,6 +570,22 @@ func TestC05(t *testing.T) {
 				if i == 3 {
 					rep.Sample(map[string]interface{}{"kind": fmt.Sprintf("hostile env=%d", ei), "stream": vh.Hex(hs[:min(len(hs), 200)])})
 				}
+			}
+		}
+	}
+
+	// (b2) the same grammar through caller-supplied buffered readers of 16..4096 bytes
+	for bi, size := range []int{16, 17, 64, 128, 200, 300, 4096} {
+		for ei, base := range []*c05env{plain, withD, withDK} {
+			env := *base
+			env.bufSize = size
+			g := &c05gen{r: vh.Sub(seed, fmt.Sprintf("c05-buf-%d-%d", bi, ei)), env: &env, msgs: msgs, tsNext: 1000}
+			for i := 0; i < vh.Pick(60, 2000); i++ {
+				stream, frames := g.cleanStream(4096)
+				rep.Distinct(stream, size)
+				res := env.check(stream, g.r, false)
+				env.completeness(stream, frames, res)
+				rep.Count("small_buffer_streams", 1)
 			}
 		}
 	}
